@@ -5,12 +5,19 @@ From KV Require Import Model.Prims Gen.SimTables.
 Import ListNotations.
 Local Open Scope list_scope.
 
+(* the statements of the cell body in the order of the library text (bench.py elaborates them in this order) *)
+Inductive tstmt :=
+| TIn (names : list string)                           (* input(...) *)
+| TOut (names : list string)                          (* output(...) *)
+| TGate (o k : string) (args : list string).          (* o = k(args) *)
+
 Record tcell := {
   t_pattern : string;                 (* name pattern with {a,b} alternatives *)
   t_names : list string;              (* expanded names *)
   t_ins : list string;                (* input pins in declaration order *)
   t_outs : list string;               (* output pins in declaration order *)
-  t_gates : list (string * string * list string)   (* signal = KIND(args) *)
+  t_gates : list (string * string * list string);  (* signal = KIND(args) *)
+  t_stmts : list tstmt                (* all statements, text order (t_ins / t_outs / t_gates are its projections) *)
 }.
 
 Fixpoint find_gate (g : list (string * string * list string)) (name : string) : option (string * list string) :=
